@@ -44,6 +44,9 @@ var targets = []target{
 	{dir: ".", name: "unaryCriteriaToRange", lean: "unaryCriteriaToRange", params: map[string]string{"c": "GUnary"}, ret: "Option GRange", optional: true},
 	{dir: "query", recv: "UnaryCriteria", name: "compare", lean: "UnaryCriteria_compare", params: map[string]string{"c": "GUnary", "doc": "Doc"}, ret: "Option Bool", mayPanic: true},
 	{dir: "query", recv: "UnaryCriteria", name: "eq", lean: "UnaryCriteria_eq", params: map[string]string{"c": "GUnary", "doc": "Doc"}, ret: "Bool"},
+	{dir: "query", recv: "Query", name: "copy", lean: "Query_copy", params: map[string]string{"q": "GQuery"}, ret: "GQuery"},
+	{dir: "query", recv: "Query", name: "Skip", lean: "Query_Skip", params: map[string]string{"q": "GQuery", "n": "Int"}, ret: "GQuery"},
+	{dir: "query", recv: "Query", name: "Limit", lean: "Query_Limit", params: map[string]string{"q": "GQuery", "n": "Int"}, ret: "GQuery"},
 	{dir: "query", recv: "BinaryCriteria", name: "Satisfy", lean: "BinaryCriteria_Satisfy", params: map[string]string{"c": "GBinary", "doc": ""}, ret: "Bool"},
 	{dir: "query", recv: "NotCriteria", name: "Satisfy", lean: "NotCriteria_Satisfy", params: map[string]string{"c": "GNot", "doc": ""}, ret: "Bool"},
 	{dir: "query", recv: "UnaryCriteria", name: "exist", lean: "UnaryCriteria_exist", params: map[string]string{"c": "GUnary", "doc": "Doc"}, ret: "Bool"},
@@ -58,6 +61,8 @@ var structs = map[string][][2]string{
 	// query.BinaryCriteria / NotCriteria: a sub-criterion is represented by what its Satisfy answers on the document at hand
 	"GBinary": {{"OpType", "String"}, {"C1", "Bool"}, {"C2", "Bool"}},
 	"GNot":    {{"C", "Bool"}},
+	// query.Query
+	"GQuery": {{"collection", "Bytes"}, {"criteria", "Option Crit"}, {"limit", "Int"}, {"skip", "Int"}, {"sortOpts", "List (Bytes × Int)"}},
 }
 
 // named constants of the query package (an `int` enumeration in Go): translated to their names
@@ -66,11 +71,11 @@ var namedConsts = map[string]bool{"query.ExistsOp": true, "query.EqOp": true, "q
 	"query.LogicalAnd": true, "query.LogicalOr": true}
 
 // calls with a model counterpart, by the Lean type of their argument
-var knownCalls = map[string]string{"isFieldReference": "Operand.isRef", "getFieldOrValue": "deref", "doc.Get": "Doc.get doc", "doc.Has": "Doc.has doc"}
-var knownCallTypes = map[string]string{"isFieldReference": "Bool", "getFieldOrValue": "Value", "doc.Get": "Value", "doc.Has": "Bool"}
+var knownCalls = map[string]string{"isFieldReference": "Operand.isRef", "getFieldOrValue": "deref", "doc.Get": "Doc.get doc", "doc.Has": "Doc.has doc", "q.copy": "Query_copy q"}
+var knownCallTypes = map[string]string{"isFieldReference": "Bool", "getFieldOrValue": "Value", "doc.Get": "Value", "doc.Has": "Bool", "q.copy": "GQuery"}
 
 // Go composite literal type -> generated structure
-var literalTypes = map[string]string{"Range": "GRange", "index.Range": "GRange"}
+var literalTypes = map[string]string{"Range": "GRange", "index.Range": "GRange", "Query": "GQuery"}
 
 type tr struct {
 	t      target
